@@ -42,6 +42,19 @@ def _sweep_case(case):
             issues.append(dict(kind="violation", step=0, kf=kf, signature="%s differs from the documented value [%s/%s] (direct construction)" % (bad[0], ftype, cost_id),
                                detail=dict(case=case, expected=bad[1], actual=bad[2])))
             break
+    if not issues and not (ftype == "xy" and "ex2" in on):
+        # after a fit the reported cost must still be the documented function of the declared inputs, at the reported parameters
+        # (do_fit may switch to an optimised cost node: it has to be the same function)
+        try:
+            fit.do_fit()
+        except Exception as exc:
+            return [dict(kind="violation", step=0, kf=None, signature="do_fit raised %s [%s/%s] (direct construction)" % (type(exc).__name__, ftype, cost_id),
+                         detail=dict(case=case, exc=str(exc)[:300]))]
+        kf = "KF-C01-HIST-MODEL-REL" if ftype == "hist" and any(fl.SOURCES[s]["ref"] == "model" and fl.SOURCES[s]["rel"] for s in on) else None
+        bad = fiteval.check_against_evaluator(fit, ftype, cost_id, st, ("cost", "total_cov"))
+        if bad:
+            issues.append(dict(kind="violation", step=0, kf=kf, signature="%s after do_fit differs from the documented value at the reported parameters [%s/%s]" % (bad[0], ftype, cost_id),
+                               detail=dict(case=case, expected=bad[1], actual=bad[2], parameters=[float(v) for v in fit.parameter_values])))
     return issues
 
 
